@@ -206,7 +206,11 @@ func (r *Run) Eval(o Obs) {
 	r.C["evaluations"]++
 	if !o.Trivial() {
 		r.C["nontrivial_evaluations"]++
-		r.Outcome(o.Key())
+		if len(r.Outcomes) >= outcomeCap {
+			r.OutCap = true
+		} else {
+			r.Outcomes[HashValue(o.Val)] = struct{}{}
+		}
 	}
 }
 
@@ -563,7 +567,7 @@ func ParentMain(id, tier string) int {
 		ph := phaseOf[cl.Min.Phase]
 		repro := 0
 		const tries = 3
-		if c.Judge != nil && ph != nil && !strings.Contains(cl.Sig, "/worker-died/") {
+		if c.Judge != nil && ph != nil && !strings.Contains(cl.Sig, "/worker-died/") && nviol < 25 {
 			for t := 0; t < tries; t++ {
 				if rejudge(work, ph.Build, id, tmp, cl.Min) {
 					repro++
